@@ -1142,7 +1142,11 @@ func (b *builder) eventDatagram() ([]byte, string) {
 		}
 		return d, cl
 	}
-	return b.datagram(cl, model.GetStatus, &a, serial), cl
+	d := b.datagram(cl, model.GetStatus, &a, serial)
+	if (cl == "malformed" || cl == "valid-ood" || cl == "serial0") && len(d) == 64 && r.Intn(3) == 0 {
+		d[0] = 0x19 // the v6.62 marker changes nothing about what makes an event malformed
+	}
+	return d, cl
 }
 
 func (b *builder) listenStep(client int) engine.Step {
@@ -1176,6 +1180,18 @@ func (b *builder) listenStep(client int) engine.Step {
 			st.Holds = append(st.Holds, pick(r, 0, 0, time.Millisecond, span/3, span))
 		}
 	}
+	st.OnErrFalse = r.Intn(4) == 0 // what OnError returns is the application's business: the listener goes on either way
+	if st.OnErrFalse && r.Intn(2) == 0 {
+		// malformed datagrams back to back
+		k := r.Intn(len(st.Feed) + 1)
+		at := time.Duration(r.Int63n(int64(span)))
+		var burst []engine.Emit
+		for i := 2 + r.Intn(3); i > 0; i-- {
+			cl := pick(r, "wronglen", "garbage", "serial0", "wrongfn")
+			burst = append(burst, engine.Emit{After: at, Via: "udp", From: senders[0], Data: b.datagram(cl, model.GetStatus, &model.Args{}, model.GenSerial(r)), Class: cl})
+		}
+		st.Feed = append(st.Feed[:k:k], append(burst, st.Feed[k:]...)...)
+	}
 	return st
 }
 
@@ -1195,6 +1211,22 @@ func genC10(b *builder) {
 	if r.Intn(8) == 0 {
 		// a transient receive error in the middle of the stream
 		sc.Faults = append(sc.Faults, vnet.Fault{Kind: "udpread", Nth: r.Intn(6), Errno: pick(r, "ENOBUFS", "ECONNREFUSED", "EPERM")})
+	}
+	if r.Intn(8) == 0 && len(sc.Foreign) == 0 && len(sc.Faults) == 0 {
+		// the application tries to listen while another listener of the same process holds the address, fails, and
+		// tries again later with the same signal channel: that listener, too, stops when signalled - once
+		first := b.listenStep(0)
+		first.StopAfter = time.Duration(200+r.Intn(200)) * time.Millisecond
+		first.Holds = nil
+		sc.Tasks = append(sc.Tasks, engine.Task{Steps: []engine.Step{first}})
+		early := engine.Step{Kind: "listen", Client: 0} // no stopper: it cannot start
+		again := b.listenStep(0)
+		again.SameQ = true
+		again.Holds = nil
+		again.StopAfter = time.Duration(50+r.Intn(200)) * time.Millisecond
+		sc.Tasks = append(sc.Tasks, engine.Task{Start: time.Duration(1+r.Intn(100)) * time.Millisecond,
+			Steps: []engine.Step{early, {Kind: "sleep", Delay: 500 * time.Millisecond}, again}})
+		return
 	}
 	cycles := 1 + b.n(3)
 	tk := engine.Task{}
